@@ -582,7 +582,12 @@ func c16LoopProgress(w *World, f *ssa.Function, h *ssa.BasicBlock) string {
 			if call, ok := e.(*ssa.Call); ok {
 				switch calleeFullName(call) {
 				case "(*text/scanner.Scanner).Scan":
-					return "scanner loop: every iteration consumes a token with Scanner.Scan (the loop exits on EOF / error count)"
+					// at the end of the text Scan keeps answering EOF without consuming anything: the EOF token must
+					// take every path out of the loop
+					if !scannerLoopExitsOnEOF(f, h, p) {
+						return ""
+					}
+					return "scanner loop: every iteration consumes a token with Scanner.Scan, and the EOF token leaves the loop on every path"
 				case "(reflect.Type).Elem", "(reflect.Value).Elem":
 					if callArgs(call)[0] == ssa.Value(p) {
 						return "descent loop: " + canon(p) + " is replaced by its Elem() every iteration (types and values are finite)"
@@ -1466,12 +1471,84 @@ func reachableFromRecv(f *ssa.Function, v ssa.Value) bool {
 	if len(f.Params) == 0 || f.Signature.Recv() == nil {
 		return false
 	}
-	recv := ssa.Value(f.Params[0])
+	return reachableFromRoots(map[ssa.Value]bool{ssa.Value(f.Params[0]): true}, v)
+}
+
+// writeReachableIn: the first write (map update, store outside a local) in f, or in what f calls with such state as
+// an argument or captured variable, to something reachable from roots.
+func writeReachableIn(f *ssa.Function, roots map[ssa.Value]bool, depth int) ssa.Instruction {
+	if depth > 3 || f == nil || len(f.Blocks) == 0 {
+		return nil
+	}
+	for _, i := range allInstrs(f) {
+		switch x := i.(type) {
+		case *ssa.MapUpdate:
+			if reachableFromRoots(roots, x.Map) {
+				return x
+			}
+		case *ssa.Store:
+			if _, isAlloc := x.Addr.(*ssa.Alloc); !isAlloc && reachableFromRoots(roots, x.Addr) {
+				return x
+			}
+		case ssa.CallInstruction:
+			cc := x.Common()
+			if cc.IsInvoke() {
+				continue
+			}
+			var callee *ssa.Function
+			sub := map[ssa.Value]bool{}
+			if mc, ok := cc.Value.(*ssa.MakeClosure); ok {
+				callee, _ = mc.Fn.(*ssa.Function)
+				if callee != nil {
+					for bi, b := range mc.Bindings {
+						if bi < len(callee.FreeVars) && reachableFromRoots(roots, b) {
+							sub[callee.FreeVars[bi]] = true
+						}
+					}
+				}
+			} else {
+				callee = cc.StaticCallee()
+			}
+			if callee == nil || len(callee.Blocks) == 0 || callee == f {
+				continue
+			}
+			if p := callee.Pkg; p == nil || p.Pkg == nil || !strings.HasPrefix(p.Pkg.Path(), modPath) {
+				if callee.Parent() == nil {
+					continue
+				}
+			}
+			for ai, a := range cc.Args {
+				if ai < len(callee.Params) && reachableFromRoots(roots, a) {
+					sub[callee.Params[ai]] = true
+				}
+			}
+			if len(sub) == 0 {
+				continue
+			}
+			if w := writeReachableIn(callee, sub, depth+1); w != nil {
+				return w
+			}
+		}
+	}
+	return nil
+}
+
+func reachableFromRoots(roots map[ssa.Value]bool, v ssa.Value) bool {
 	seen := map[ssa.Value]bool{}
 	var walk func(v ssa.Value) bool
 	walk = func(v ssa.Value) bool {
-		if v == recv {
+		if roots[v] {
 			return true
+		}
+		if al, ok := v.(*ssa.Alloc); ok && !seen[v] {
+			// a local that holds (a pointer to) such state: `c := a.cache`, the cell of a captured receiver
+			seen[v] = true
+			for _, r := range *al.Referrers() {
+				if st, ok := r.(*ssa.Store); ok && st.Addr == ssa.Value(al) && walk(st.Val) {
+					return true
+				}
+			}
+			return false
 		}
 		if seen[v] {
 			return false
@@ -1517,6 +1594,10 @@ func c10ManglersKeepNoState(c *Ctx, rule string) {
 			}
 			n++
 			bad := false
+			if wr := writeReachableIn(f, map[ssa.Value]bool{ssa.Value(f.Params[0]): true}, 0); wr != nil && wr.Parent() != f {
+				bad = true
+				c.bad(rule, relName(f)+"#callee-write", wr.Pos(), "%s hands state reachable from its receiver to %s, which writes it: what this call records is seen by every later call on the same mangler (the next field of the same type, the next reload)", relName(f), relName(wr.Parent()))
+			}
 			for _, i := range allInstrs(f) {
 				switch x := i.(type) {
 				case *ssa.MapUpdate:
@@ -1539,4 +1620,118 @@ func c10ManglersKeepNoState(c *Ctx, rule string) {
 	if n == 0 {
 		c.bad(rule, "manglers", 0, "no mangler implementation found")
 	}
+}
+
+// c16ValueAfterErrorCheck: the reflect.Value a repository function returns together with an error is used as the
+// receiver of a reflect.Value method (IsValid apart) only where that error is known to be nil. The (Value, error)
+// functions of the repository return the zero Value with their errors; any method on it panics.
+func c16ValueAfterErrorCheck(c *Ctx, rule string) {
+	w := c.W
+	n := 0
+	for _, f := range w.Funcs {
+		if !w.inRepo(f) {
+			continue
+		}
+		for _, i := range allInstrs(f) {
+			call, ok := i.(*ssa.Call)
+			if !ok {
+				continue
+			}
+			callee := staticCallee(call)
+			if callee == nil || !w.inRepo(callee) {
+				continue
+			}
+			res := callee.Signature.Results()
+			if res.Len() != 2 || res.At(0).Type().String() != "reflect.Value" || !isErrorType(res.At(1).Type()) {
+				continue
+			}
+			var v0, e1 ssa.Value
+			for _, r := range *call.Referrers() {
+				if ex, ok := r.(*ssa.Extract); ok {
+					if ex.Index == 0 {
+						v0 = ex
+					} else {
+						e1 = ex
+					}
+				}
+			}
+			if v0 == nil {
+				continue
+			}
+			for _, r := range *v0.Referrers() {
+				use, ok := r.(*ssa.Call)
+				if !ok || len(use.Call.Args) == 0 || use.Call.Args[0] != v0 {
+					continue
+				}
+				nm := calleeFullName(use)
+				if !strings.HasPrefix(nm, "(reflect.Value).") || nm == "(reflect.Value).IsValid" {
+					continue
+				}
+				n++
+				okU := e1 != nil && knownNil(use.Block(), e1, true)
+				c.check(okU, rule, relName(f)+"#"+strings.TrimPrefix(nm, "(reflect.Value).")+"-of-"+fnName(callee), use.Pos(), "the value result of "+relName(callee)+" is used only where its error is known nil",
+					"the reflect.Value returned by "+relName(callee)+" is used ("+nm+") where the error returned with it has not been found nil: on failure it is the zero Value and the call panics (an input that merely fails to parse crashes the process)")
+			}
+		}
+	}
+	if n == 0 {
+		c.bad(rule, "repository", 0, "no use of a (reflect.Value, error) result found")
+	}
+}
+
+// scannerLoopExitsOnEOF: tok (the loop-carried result of Scanner.Scan) is compared with scanner.EOF inside the loop,
+// and from the "is EOF" side of that comparison the loop header cannot be reached again.
+func scannerLoopExitsOnEOF(f *ssa.Function, h *ssa.BasicBlock, tok *ssa.Phi) bool {
+	found := false
+	for _, b := range f.Blocks {
+		if b != h && !inLoopBody(h, b) {
+			continue
+		}
+		iff, ok := b.Instrs[len(b.Instrs)-1].(*ssa.If)
+		if !ok {
+			continue
+		}
+		cmp, ok := iff.Cond.(*ssa.BinOp)
+		if !ok || (cmp.Op != token.EQL && cmp.Op != token.NEQ) {
+			continue
+		}
+		var other ssa.Value
+		switch {
+		case stripConv(cmp.X) == ssa.Value(tok):
+			other = cmp.Y
+		case stripConv(cmp.Y) == ssa.Value(tok):
+			other = cmp.X
+		default:
+			continue
+		}
+		if n, ok := constInt(other); !ok || n != -1 {
+			continue
+		}
+		found = true
+		eof := b.Succs[0]
+		if cmp.Op == token.NEQ {
+			eof = b.Succs[1]
+		}
+		seen := map[*ssa.BasicBlock]bool{}
+		var reach func(x *ssa.BasicBlock) bool
+		reach = func(x *ssa.BasicBlock) bool {
+			if x == h {
+				return true
+			}
+			if seen[x] {
+				return false
+			}
+			seen[x] = true
+			for _, sc := range x.Succs {
+				if reach(sc) {
+					return true
+				}
+			}
+			return false
+		}
+		if reach(eof) {
+			return false
+		}
+	}
+	return found
 }
